@@ -566,6 +566,11 @@ spec fn fold_pieces(s: Option<Summary>, ps: Seq<Piece>) -> Option<Summary>
 {
     if ps.len() == 0 { s } else { apply_piece(fold_pieces(s, ps.drop_last()), ps.last()) }
 }
+/// the bound up to which the pending coverage is final: the next entry's start, and after the LAST entry of the
+/// chromosome everything (no base lies at or right of u32::MAX: ends are u32)
+spec fn bound_of(next_start_opt: Option<u32>) -> u32 {
+    if next_start_opt.is_some() { next_start_opt.unwrap() } else { u32::MAX }
+}
 /// where the flushed pieces end
 spec fn flushed_to(ps: Seq<Piece>, a: int) -> int { if ps.len() > 0 { ps.last().e } else { a } }
 
@@ -578,31 +583,25 @@ fn add_interval_to_summary(overlap: &mut VList, summary: &mut Option<Summary>, i
         segs_ok(old(overlap)@, d0, item_start as int, ents),
         sbases(*old(summary)) == cnt(ents, 0, item_start as int),
     ensures
-        ({
-            let ents2 = ents.push((item_start, item_end));
-            let next_start = if next_start_opt.is_some() { next_start_opt.unwrap() } else { u32::MAX };
-            let b = flushed_to(out@.1, item_start as int);
-            let hi0 = hi_of(old(overlap)@, item_start as int);
-            
-            &&& segs_ok(final(overlap)@, out@.0, next_start as int, ents2)
-            
-            &&& segs_ok(final(overlap)@, out@.0, b, ents2)
-            &&& item_start <= b <= next_start
-            &&& (final(overlap)@.len() > 0 ==> b == next_start)
-            
-            &&& pieces_ok(out@.1, item_start as int, b, ents2)
-            
-            &&& forall|q: int| 0 <= q < out@.1.len() ==> (#[trigger] out@.1[q]).s < out@.1[q].e
-            
-            &&& *final(summary) == fold_pieces(*old(summary), out@.1)
-            
-            &&& sbases(*final(summary)) == cnt(ents2, 0, next_start as int)
-            
-            &&& (final(overlap)@.len() > 0 ==> final(overlap)@.last().end == imax(hi0, item_end as int))
-            &&& (final(overlap)@.len() == 0 ==> imax(hi0, item_end as int) <= next_start)
-            
-            &&& (next_start_opt.is_none() ==> final(overlap)@.len() == 0)
-        }),
+        
+        segs_ok(final(overlap)@, out@.0, bound_of(next_start_opt) as int, ents.push((item_start, item_end))),
+        
+        segs_ok(final(overlap)@, out@.0, flushed_to(out@.1, item_start as int), ents.push((item_start, item_end))),
+        item_start <= flushed_to(out@.1, item_start as int) <= bound_of(next_start_opt),
+        final(overlap)@.len() > 0 ==> flushed_to(out@.1, item_start as int) == bound_of(next_start_opt),
+        
+        pieces_ok(out@.1, item_start as int, flushed_to(out@.1, item_start as int), ents.push((item_start, item_end))),
+        
+        forall|q: int| 0 <= q < out@.1.len() ==> (#[trigger] out@.1[q]).s < out@.1[q].e,
+        
+        *final(summary) == fold_pieces(*old(summary), out@.1),
+        
+        sbases(*final(summary)) == cnt(ents.push((item_start, item_end)), 0, bound_of(next_start_opt) as int),
+        
+        final(overlap)@.len() > 0 ==> final(overlap)@.last().end == imax(hi_of(old(overlap)@, item_start as int), item_end as int),
+        final(overlap)@.len() == 0 ==> imax(hi_of(old(overlap)@, item_start as int), item_end as int) <= bound_of(next_start_opt),
+        
+        next_start_opt.is_none() ==> final(overlap)@.len() == 0,
 {
             let ghost ents2 = ents.push((item_start, item_end));
             let ghost hi0 = hi_of(overlap@, item_start as int);
@@ -736,7 +735,6 @@ fn add_interval_to_summary(overlap: &mut VList, summary: &mut Option<Summary>, i
                 invariant
                     
                     ents2 == ents.push((item_start, item_end)),
-                    next_start == (if next_start_opt.is_some() { next_start_opt.unwrap() } else { u32::MAX }),
                     hi1 == imax(hi0, item_end as int),
                     
                     item_start <= lo <= next_start,
